@@ -85,3 +85,39 @@ def r_C01h(root):
         for u, p_ in extra:
             out.append(Finding("C01", "C01.h", L, "_resolve_rule", ("" if p_ else "not ") + u, "a suppressed rule reference (Rule-) is wrapped only when %s%s: the first reference that triggers the resolution of an alias rule loses its suppression and the matched text shows up in the value" % ("" if p_ else "not ", u), witness="Sep-  with  Sep: Colon; Colon: ':';"))
     return inst, out
+
+def r_C17i(root):
+    """C17.i / C16.e  every model gets a repository object of its own: each store `<model>._tx_model_repository = V` binds a
+       GlobalModelRepository constructed at that point (on every reaching definition of V).  Only `all_models` is shared
+       (handed to the constructor); `local_models` — the files visible from one model through its imports — must not be
+       shared between top-level loads, else a later load resolves names from files only an earlier load imported."""
+    import ast
+    from sa import sem
+    out = []; inst = 0
+    for rel in ("textx/metamodel.py", "textx/scoping/__init__.py", "textx/scoping/providers.py", "textx/scoping/rrel.py", "textx/model.py"):
+        t = load(root, rel)
+        for n in ast.walk(t):
+            if not (isinstance(n, ast.Assign) and len(n.targets) == 1 and isinstance(n.targets[0], ast.Attribute) and n.targets[0].attr == "_tx_model_repository"): continue
+            base = n.targets[0].value
+            if isinstance(base, ast.Name) and base.id == "self": continue           # the metamodel's own (global) repository
+            fn = enclosing_func(n)
+            if fn is None: continue
+            fi = sem.info(fn); inst += 1
+            def fresh(e, at, depth=0):
+                if isinstance(e, ast.Call) and callee_name(e) == "GlobalModelRepository": return True
+                if isinstance(e, ast.Name) and depth < 4:
+                    nd = fi.node_of(at); ds = fi.rd.defs_of(nd, e.id) if nd is not None else []
+                    if not ds: return False
+                    for d in ds:
+                        dn = fi.cfg.nodes[d]
+                        if not (dn.kind == "stmt" and isinstance(dn.ast, ast.Assign) and fresh(dn.ast.value, dn.ast, depth + 1)): return False
+                    return True
+                return False
+            ok = fresh(n.value, n)
+            q = qualname(n)
+            for pr in ("C17", "C16"): ob(pr, "C17.i", rel, q, " ".join(ast.unparse(n).split())[:100], ok)
+            if not ok:
+                for pr in ("C17", "C16"):
+                    out.append(Finding(pr, "C17.i", rel, q, " ".join(ast.unparse(n).split())[:100], "a model is given an existing repository object (%s) instead of one of its own: the set of files visible from a model (local_models) is then shared with whoever owns that object and grows with every load" % ast.unparse(n.value)[:60], witness="global_repository=True: load a file that imports lib, then a file that uses lib's names without importing it"))
+    if inst < 3: raise AnalysisError("model repository stores: only %d found (metamodel callback, GlobalModelRepository.pre_ref_resolution_callback, ImportURI.load_models expected)" % inst)
+    return inst, out
